@@ -7,37 +7,29 @@
     [path] from the most specific one on; at an expression the first value (in
     insertion order) whose conditions [m] hold is the answer; if none holds, go on
     only if that expression's backtracking flag is set.
-    Search (Radix/Machine.v): [find_in true] = findNode as it is, [find_in false]
-    = with fixes/C02-F1.diff; [load] = any sequence of Add on the empty index. *)
+    Search (Radix/Machine.v): [find_in false] = findNode as it is (since fix e897fef),
+    [find_in true] = the pinned tree; [load] = any sequence of Add on the empty index. *)
 From HV Require Import Base.Prelude Radix.Spec Radix.SpecProofs Radix.Machine Radix.MachineProofs
   Radix.Load Radix.LoadProofs Radix.Tree Radix.TreeProofs C02.Model C02.Proofs.
 
-(** ** the search returns what the specification says *)
+(** ** the search returns what the specification says
 
-(** the code as it is, after ANY sequence of Adds (any expressions, order, flags,
-    values constraint), for any path and any conditions that do not depend on
-    captures — outside finding C02-F1 *)
+    Since fix e897fef (C02-F1), 88da16a (C03-F2) and 16cf34b (C03-F5) the code of
+    findNode is [find_in false] / [tree_find true true true]; [find_in true] /
+    [tree_find false ..] is the PINNED tree (before those commits). *)
+
+(** after ANY sequence of Adds (any expressions, order, flags, values constraint),
+    for any path and any conditions (captures included) *)
 Theorem C02_find_is_most_specific :
-  forall (V : Type) (can_add : list V -> V -> bool) (adds : list (addop V)) (path : str) (m : matcher V),
-    cond_only m -> guard_F1 (load can_add adds) path m = false ->
-    find_in true (load can_add adds) path m = spec_lookup (load can_add adds) path m.
-Proof. exact loaded_find_is_spec. Qed.
-Print Assumptions C02_find_is_most_specific.
-
-(** the repaired code: no guard, any conditions (captures included) *)
-Theorem C02_repaired_find_is_most_specific :
   forall (V : Type) (can_add : list V -> V -> bool) (adds : list (addop V)) (path : str) (m : matcher V),
     find_in false (load can_add adds) path m = spec_lookup (load can_add adds) path m.
 Proof. exact loaded_repaired_find_is_spec. Qed.
-Print Assumptions C02_repaired_find_is_most_specific.
+Print Assumptions C02_find_is_most_specific.
 
-(** ** stage 2: the compressed radix tree (Radix/Tree.v: findNode of tree.go with its
-    static/wildcard/catch-all children, transcribed) on ANY tree satisfying the shape
-    invariant [wfb] is the machine's search on the tree's content [abs] — so the
-    statements above hold of the compressed tree.  ([fx] = repair switch; captures
-    included.)  That Add preserves [wfb] and that [abs] of the tree built by a
-    sequence of Adds is the machine's index is checked on every generated case of the
-    correspondence runs, not proved. *)
+(** stage 2: the compressed radix tree (Radix/Tree.v: findNode of tree.go with its
+    static / wildcard / catch-all children, transcribed) on ANY tree satisfying the
+    shape invariant [wfb] is the machine's search on the tree's content [abs]
+    ([fx] = C02-F1/C03-F2 switch; captures included) ... *)
 Theorem C02_tree_refines_machine :
   forall (V : Type) (m : matcher V) (fx : bool) (t : tree V) (path : str),
     wfb t = true ->
@@ -45,42 +37,55 @@ Theorem C02_tree_refines_machine :
 Proof. exact tree_find_refines. Qed.
 Print Assumptions C02_tree_refines_machine.
 
-(** findNode exactly as it is (C02-F1, C03-F2, C03-F5 all present), conditions that
-    do not look at captures, outside C02-F1: the value and key names of the specification *)
+(** ... hence findNode as it is now returns the specification's answer on the
+    content of every well-formed tree.  (That Add preserves [wfb] and that [abs] of
+    the tree built by a sequence of Adds is the machine's index is checked on every
+    generated case of the correspondence runs, not proved.) *)
 Theorem C02_tree_find_is_most_specific :
+  forall (V : Type) (m : matcher V) (t : tree V) (path : str),
+    wfb t = true -> tree_find true true true m t path = spec_lookup (abs t) path m.
+Proof. exact tree_repaired_find_is_spec. Qed.
+Print Assumptions C02_tree_find_is_most_specific.
+
+(** *** the pinned behaviour (finding C02-F1, fixed by e897fef) *)
+
+(** before the fix the theorem held only outside the guard and for conditions that
+    do not look at captures ... *)
+Theorem C02_pinned_find_is_most_specific :
+  forall (V : Type) (can_add : list V -> V -> bool) (adds : list (addop V)) (path : str) (m : matcher V),
+    cond_only m -> guard_F1 (load can_add adds) path m = false ->
+    find_in true (load can_add adds) path m = spec_lookup (load can_add adds) path m.
+Proof. exact loaded_find_is_spec. Qed.
+Print Assumptions C02_pinned_find_is_most_specific.
+
+Theorem C02_pinned_tree_find_is_most_specific :
   forall (V : Type) (m : matcher V) (t : tree V) (path : str),
     cond_only m -> wfb t = true -> guard_F1 (abs t) path m = false ->
     found_strip V (tree_find false false false m t path) = found_strip V (spec_lookup (abs t) path m).
 Proof. exact tree_find_is_spec_guarded. Qed.
-Print Assumptions C02_tree_find_is_most_specific.
+Print Assumptions C02_pinned_tree_find_is_most_specific.
 
-Theorem C02_tree_repaired_find_is_most_specific :
-  forall (V : Type) (m : matcher V) (t : tree V) (path : str),
-    wfb t = true -> tree_find true true true m t path = spec_lookup (abs t) path m.
-Proof. exact tree_repaired_find_is_spec. Qed.
-Print Assumptions C02_tree_repaired_find_is_most_specific.
-
-(** finding C02-F1: the guard is needed and not vacuous *)
-Theorem C02_F1_refuted :
+(** ... and failed inside it:  /foo/**  without backtracking still fell back to  /**  *)
+Theorem C02_F1_pinned_refuted :
   exists (l : list (addop nat)) (path : str) (m : matcher nat),
     cond_only m /\ guard_F1 (load ex_any l) path m = true /\
     find_in true (load ex_any l) path m <> spec_lookup (load ex_any l) path m.
 Proof. exact F1_refuted. Qed.
-Print Assumptions C02_F1_refuted.
+Print Assumptions C02_F1_pinned_refuted.
 
+(** non-vacuity: concrete lookups with several candidates, with and without backtracking *)
 Theorem C02_nonvacuous :
-  guard_F1 (load ex_any NV_adds) (ex_str "/foo/bar") (ex_only [2]) = false /\
-  find_in true (load ex_any NV_adds) (ex_str "/foo/bar") (ex_only [2]) = NoMatch /\
-  guard_F1 (load ex_any NV_adds) (ex_str "/foo/bar/baz") (ex_only [2]) = false /\
-  find_in true (load ex_any NV_adds) (ex_str "/foo/bar/baz") (ex_only [2])
-  = Found 2 [ex_str "*"] [ex_str "foo/bar/baz"].
-Proof. exact nonvacuous. Qed.
+  find_in false (load ex_any NV_adds) (ex_str "/foo/bar") (ex_only [2]) = NoMatch /\
+  find_in false (load ex_any NV_adds) (ex_str "/foo/bar/baz") (ex_only [2])
+  = Found 2 [ex_str "*"] [ex_str "foo/bar/baz"] /\
+  find_in false (load ex_any NV_adds) (ex_str "/foo/bar") (ex_only [1; 2; 3; 4]) = Found 4 [] [].
+Proof. exact nonvacuous_current. Qed.
 Print Assumptions C02_nonvacuous.
 
 (** ** independent of the order in which rules and rule sets were loaded:
     two sequences of Adds that agree, expression by expression, on the Adds of
     that expression (same values in the same order, same flags) answer every
-    lookup alike — code as it is ([fa = true]) and repaired *)
+    lookup alike — current code ([fa = false]) and pinned ([fa = true]) *)
 Theorem C02_order_independent :
   forall (V : Type) (can_add : list V -> V -> bool) (fa : bool) (adds adds' : list (addop V))
          (m : matcher V) (path : str),
@@ -183,17 +188,18 @@ Qed.
 Print Assumptions C02_escapes_are_literals.
 
 (** ** the repository: the specification's rule, else the default rule, else "no rule" —
-    after any sequence of rule sets (a set one of whose Adds fails is not loaded) *)
+    after any sequence of rule sets (a set one of whose Adds fails is not loaded);
+    second conjunct: the pinned code, guarded *)
 Theorem C02_default_or_norule :
+  (forall (sets : list (nat * list rule_def)) (dflt : bool) (path : str) (m : matcher rval),
+     find_rule false (load_rulesets [] sets) dflt path m = spec_find_rule (load_rulesets [] sets) dflt path m) /\
   (forall (sets : list (nat * list rule_def)) (dflt : bool) (path : str) (m : matcher rval),
      cond_only m -> guard_F1 (load_rulesets [] sets) path m = false ->
      find_rule true (load_rulesets [] sets) dflt path m = spec_find_rule (load_rulesets [] sets) dflt path m) /\
-  (forall (sets : list (nat * list rule_def)) (dflt : bool) (path : str) (m : matcher rval),
-     find_rule false (load_rulesets [] sets) dflt path m = spec_find_rule (load_rulesets [] sets) dflt path m) /\
   (forall (d : db rval) (dflt : bool) (path : str) (m : matcher rval),
      match spec_lookup d path m with
      | Found v _ _ => spec_find_rule d dflt path m = ORule (fst v)
      | NoMatch => spec_find_rule d dflt path m = if dflt then ODefault else ONoRule
      end).
-Proof. exact (conj find_rule_is_spec (conj repaired_find_rule_is_spec default_or_norule)). Qed.
+Proof. exact (conj repaired_find_rule_is_spec (conj find_rule_is_spec default_or_norule)). Qed.
 Print Assumptions C02_default_or_norule.
